@@ -219,8 +219,73 @@ def run_mutating(case, rec):
     return tuple(obs)
 
 
+def run_returns(case, rec):
+    """return values that look like something else: an error OBJECT that is returned (not raised) is a result like any other value the
+    encoder knows - e.g. last_error('backup-2') handing out a stored error"""
+    import pjrpc.common.exceptions as exc
+    obs = []
+    values = {
+        'stored': lambda: exc.JsonRpcError(5, 'stored', data={'x': [1]}),
+        'stored_nodata': lambda: exc.JsonRpcError(6, 'stored'),
+        'typed': lambda: exc.MethodNotFoundError(),
+        'listed': lambda: [exc.JsonRpcError(5, 'stored'), 1],
+        'nested': lambda: {'last': exc.InvalidParamsError(data='why')},
+        'none': lambda: None, 'false': lambda: False, 'zero': lambda: 0, 'empty': lambda: '',
+    }
+    for disp in ('sync', 'async'):
+        handled = []
+        if disp == 'async':
+            async def eh(rq, cx, error):
+                handled.append(error.code)
+                return error
+        else:
+            def eh(rq, cx, error):
+                handled.append(error.code)
+                return error
+        d = (pjrpc.server.AsyncDispatcher if disp == 'async' else pjrpc.server.Dispatcher)(error_handlers={None: [eh]})
+        for name, make in values.items():
+            if disp == 'async':
+                async def f(_make=make):
+                    return _make()
+            else:
+                def f(_make=make):
+                    return _make()
+            d.add(f, name=name)
+
+        def go(text):
+            if disp == 'async':
+                loop = VLoop()
+                try:
+                    return loop.run(d.dispatch(text))
+                finally:
+                    loop.close()
+            return d.dispatch(text)
+        enc = lambda v: json.loads(json.dumps(v, cls=pjrpc.common.JSONEncoder))   # noqa
+        for name, make in values.items():
+            for shape in ('single', 'batch'):
+                one = {'jsonrpc': '2.0', 'id': 3, 'method': name}
+                del handled[:]
+                try:
+                    r = go(json.dumps(one if shape == 'single' else [one, {'jsonrpc': '2.0', 'id': 4, 'method': 'zero'}]))
+                    doc = json.loads(r[0])
+                    got = doc if shape == 'single' else doc[0]
+                except Exception as e:   # noqa
+                    got = {'raised': repr(e)[:200]}
+                rec.transitions += 1
+                want = {'jsonrpc': '2.0', 'id': 3, 'result': enc(make())}
+                if got != want or handled:
+                    rec.violation('C04:the return value did not become the result unchanged (a returned %s):sig-has[]' % ('error object' if name in ('stored', 'stored_nodata', 'typed', 'listed', 'nested') else 'falsy value'),
+                                  dict(case, disp=disp, method=name, shape=shape), expected=want, observed=dict(answer=got, error_handlers_called_with=list(handled)))
+                obs.append(got == want)
+    rec.states += 1
+    rec.traces += 1
+    rec.nontrivial_n += 1
+    return tuple(obs)
+
+
 def gen_cases(ctx):
     yield dict(mutating=True)
+    yield dict(returns=True)
     for name in AWKWARD_NAMES:
         yield dict(awkward=True, name=name)
     sigs = signatures(ctx.pick(4, 5))
@@ -279,6 +344,8 @@ def run_case(case, rec):
         return run_awkward(case, rec)
     if case.get('mutating'):
         return run_mutating(case, rec)
+    if case.get('returns'):
+        return run_returns(case, rec)
     sig = tuple(tuple(x) for x in case['sig'])
     mode, pos = case['mode'], case['pos']
     bp = build_params(sig, mode, pos)
@@ -522,11 +589,13 @@ def replay(doc):
     c = doc['case']
     if c.get('mutating'):
         run_case(dict(mutating=True), rec)
+    elif c.get('returns'):
+        run_case(dict(returns=True), rec)
     elif c.get('awkward'):
         run_case(dict(awkward=True, name=c['name']), rec)
     else:
         run_case(dict(sig=c['sig'], mode=c['mode'], pos=c['pos']), rec)
-    vs = [v for v in rec.violations if v['case']['input'] == c['input'] and v['case']['flavour'] == c['flavour'] and v['case']['disp'] == c['disp']] or rec.violations
+    vs = [v for v in rec.violations if v['case'].get('input') == c.get('input') and v['case'].get('flavour') == c.get('flavour') and v['case'].get('disp') == c.get('disp')] or rec.violations
     for v in vs[:5]:
         print('VIOLATION-REPLAY signature=%s\n  case=%s\n  expected=%s\n  observed=%s' % (
             v['signature'], jdump(v['case'])[:300], jdump(v['expected'])[:300], jdump(v['observed'])[:300]))
